@@ -480,7 +480,7 @@ def containers(u, maxn, dups=True):
 
 BOUNDS = {
     "quick": dict(nkeys=3, n1=2, operand=1, n2=0, examples=300, hyp_units=16),
-    "thorough": dict(nkeys=4, n1=3, operand=2, n2=2, examples=4000, hyp_units=32),
+    "thorough": dict(nkeys=4, n1=3, operand=1, n2=0, examples=6000, hyp_units=32),
 }
 
 
